@@ -7,6 +7,7 @@ and the executable specification (S: exactly 40 hex / 32 base32 ASCII characters
 `urn:btih:`; 40-digit lower-case hex of the same number; adopt iff same number).
 """
 import base64
+import json
 import fractions
 import decimal
 import urllib.parse
@@ -20,7 +21,11 @@ RULE = ('hash/topic strings = structured perturbations of valid 40-hex / 32-base
         'on objects initialised in each of the four notations) + histories of 2-6 assignments; xl values of '
         'every Python type int() knows; URL lists with invalid items, spaces (also leading: valid only before ' '->'+'), '
         'duplicates; get_info against a loopback HTTP server; one-object histories get_info -> torrent() -> re-assignments '
-        '-> torrent() -> get_info -> torrent() with every stage judged, also after an adoption. non-trivial = the string is valid or derived from a valid one by one '
+        '-> torrent() -> get_info -> torrent() with every stage judged, also after an adoption; torrent() in full: served '
+        'metadata shape (single / multi-file / one-file directory / nested, private, source, md5sum, entropy, extra keys) x the '
+        'magnet\'s own dn / xl / tr / ws / kt (absent, agreeing, disagreeing) x histories (before / after get_info, later changes '
+        'of the fields, rejected assignment, caller edits an earlier result, another hash assigned), every result compared in '
+        'full (info section, infohash, validate(), trackers, webseeds, name, size, fallback hash). non-trivial = the string is valid or derived from a valid one by one '
         'perturbation (not junk); distinct = distinct (entry, prior, string) / scenario')
 
 PRIORS = {'hex-lower': 'cd' * 20, 'hex-upper': 'CD' * 20,
@@ -29,8 +34,8 @@ PRIORS = {'hex-lower': 'cd' * 20, 'hex-upper': 'CD' * 20,
 
 
 # ------------------------------------------------------------------ known findings
-# none open: D14a-e and D14f (re.ASCII), D14g (URL validates the stored form), D14h (_set_infohash drops _info) are
-# repaired in /repo; their witnesses run as regression cases (corpus/C14, fixed cases of the streams)
+# none open: D14a-e and D14f (re.ASCII), D14g (URL validates the stored form), D14h (_set_infohash drops _info), D14i
+# (torrent() deep-copies the adopted info section) are repaired in /repo; their witnesses run as regression cases (corpus/C14, fixed cases of the streams)
 MATCHERS = {}
 
 
@@ -791,6 +796,7 @@ URL_FIXED = [('tr', ['http://old/0'], ['http://good/1', ' http://a/lead']),     
 
 
 def url_cases(ctx, scale=1.0):
+    common.import_torf()
     from torf import _utils
     rng = ctx.rng
     cases = list(URL_FIXED)
@@ -1068,6 +1074,424 @@ def eval_getinfo(ctx, drv, scs):
             ctx.corr_break('c14.getinfo', case, {'requests': mpaths, 'result': mres}, o)
 
 
+# ------------------------------------------------------------------ torrent() in full: own fields x adopted metadata
+# The served metadata's SHAPE is a dimension (single-file / multi-file / one-file directory; private, source, md5sum,
+# entropy, nested extra keys; name and size agreeing with dn / xl or not), crossed with the magnet's own fields
+# (dn / xl / tr / ws / kt present or not) and a history on ONE magnet: torrent() before get_info(), get_info(),
+# torrent(), changes of dn / xl / tr / ws, a rejected assignment, an edit of an earlier torrent() result, a re-assignment
+# of another hash.  Every torrent() is compared in full: info section, infohash, validate(), trackers, webseeds, name,
+# size, and the infohash the result falls back to when its info section is taken away.
+AD_SHAPES = ['single', 'multi', 'onefile-dir', 'multi-nested', 'single-tiny']
+AD_EXTRAS = ['private1', 'private0', 'source', 'md5sum', 'entropy', 'extra', 'nonascii-name']
+AD_EDITS = ['top-name', 'top-add', 'top-del', 'nested', 'trackers', 'replace-info']
+
+
+def _ad_info(shape, extras, tag):
+    """a valid info section of the given shape (plain dict, independent of torf)"""
+    name = ('näme ' if 'nonascii-name' in extras else 'name ') + tag
+    plen = 16384
+    if shape == 'single-tiny':
+        sizes = [1]
+    elif shape.startswith('single'):
+        sizes = [40000]
+    elif shape == 'onefile-dir':
+        sizes = [70000]
+    elif shape == 'multi':
+        sizes = [40000, 123, 0]
+    else:
+        sizes = [5, 16384, 16385, 1]
+    total = sum(sizes)
+    info = {'name': name, 'piece length': plen,
+            'pieces': b''.join(common.sha1(('%s/%d' % (tag, i)).encode()) for i in range(max(1, -(-total // plen))))}
+    if shape.startswith('single'):
+        info['length'] = total
+        if 'md5sum' in extras:
+            info['md5sum'] = 'ab' * 16
+    else:
+        paths = [['a.bin'], ['sub', 'b c.txt'], ['sub', 'deep', 'é'], ['z']]
+        info['files'] = []
+        for i, n in enumerate(sizes):
+            f = {'length': n, 'path': list(paths[i])}
+            if 'md5sum' in extras:
+                f['md5sum'] = ('%02x' % i) * 16
+            info['files'].append(f)
+    if 'private1' in extras:
+        info['private'] = 1
+    elif 'private0' in extras:
+        info['private'] = 0
+    if 'source' in extras:
+        info['source'] = 'SRC ' + tag
+    if 'entropy' in extras:
+        info['entropy'] = -123456789
+    if 'extra' in extras:
+        info['x-extra'] = {'k': [1, b'\x00\xff', 'ü', {'n': []}], 'length-like': 7}
+    return info, total
+
+
+def _enc(v):
+    """canonical, JSON-able form of a metainfo value (dict keys sorted: dict equality ignores order)"""
+    if isinstance(v, bool):
+        return ['t', v]
+    if isinstance(v, int):
+        return ['i', v]
+    if isinstance(v, (bytes, bytearray)):
+        return ['b', bytes(v).hex()]
+    if isinstance(v, str):
+        return ['s', mg.cps(v)]
+    if isinstance(v, (list, tuple)):
+        return ['l', [_enc(x) for x in v]]
+    if isinstance(v, dict) or hasattr(v, 'items'):
+        return ['d', sorted([[_enc(k), _enc(x)] for k, x in v.items()])]
+    return ['?', repr(v)]
+
+
+def _enc_info(info):
+    """top level of an info section: [[key code points, value]] sorted by key"""
+    return sorted([[mg.cps(str(k)), _enc(v)] for k, v in info.items()])
+
+
+def adopt_scenarios(ctx, scale=1.0):
+    rng = ctx.rng
+    sc = []
+
+    def add(**kw):
+        kw.setdefault('extras', [])
+        kw.setdefault('notation', 'hex-lower')
+        kw.setdefault('via', 'xs')
+        kw.setdefault('validate', True)
+        kw.setdefault('serve', 'match')
+        kw.setdefault('kt', None)
+        sc.append(kw)
+    # small scope, systematically: shape x (dn, xl) present / absent / agreeing / disagreeing
+    for shape in AD_SHAPES:
+        for dn in (None, 'same', 'other'):
+            for xl in (None, 'same', 'other'):
+                add(shape=shape, dn=dn, xl=xl, tr=rng.choice([0, 1, 2]), ws=rng.choice([0, 1]),
+                    notation=rng.choice(NOTATIONS), via=rng.choice(['xs', 'as_', 'ws', 'tr']),
+                    ops=[['torrent'], ['get_info'], ['torrent'], ['torrent']])
+    # Torrent.magnet()'s defaults (dn + xl + trackers) for every shape and extra key, every notation
+    for shape in AD_SHAPES:
+        for ex in AD_EXTRAS:
+            add(shape=shape, extras=[ex], dn='same', xl='same', tr=1, ws=1, notation=rng.choice(NOTATIONS),
+                ops=[['get_info'], ['torrent'], ['set', 'dn', 'renamed later'], ['set', 'xl', 1], ['torrent']])
+    # an earlier result is edited by the caller, then torrent() again (with and without metadata)
+    for shape in AD_SHAPES:
+        for ed in AD_EDITS:
+            add(shape=shape, dn='other', xl='other', tr=1, ws=1,
+                ops=[['torrent'], ['edit', ed], ['torrent'], ['get_info'], ['torrent'], ['edit', ed], ['torrent'],
+                     ['assign', 'infohash', 'other'], ['torrent']])
+    for _ in range(int(ctx.n(150, 3000) * scale)):
+        ops = []
+        if rng.random() < 0.5:
+            ops.append(['torrent'])
+        ops += [['get_info'], ['torrent']]
+        if rng.random() < 0.4:
+            for _ in range(rng.randint(1, 3)):
+                f = rng.choice(['dn', 'xl', 'tr', 'ws'])
+                ops.append(['set', f, {'dn': rng.choice([None, 'later name', '', 'a\nb']), 'xl': rng.choice([None, 1, 10 ** 15]),
+                                      'tr': rng.choice([None, ['udp://later.example:1/a'], ['http://later.example/1', 'udp://later.example:2/b']]),
+                                      'ws': rng.choice([None, ['http://later.example/seed']])}[f]])
+            ops.append(['torrent'])
+        if rng.random() < 0.3:
+            ops += [['assign', rng.choice(['xt', 'infohash']), 'invalid'], ['torrent']]
+        if rng.random() < 0.5:
+            ops += [['edit', rng.choice(AD_EDITS)], ['torrent']]
+        if rng.random() < 0.6:
+            ops += [['assign', rng.choice(['xt', 'infohash']), 'other'], ['torrent']]
+            if rng.random() < 0.4:
+                ops += [['edit', rng.choice(AD_EDITS)], ['torrent']]
+        r = rng.random()
+        add(shape=rng.choice(AD_SHAPES), extras=rng.sample(AD_EXTRAS, rng.randint(0, 3)),
+            dn=rng.choice([None, 'same', 'other', 'empty', 'newline']), xl=rng.choice([None, 'same', 'other', 'one', 'huge']),
+            tr=rng.choice([0, 1, 2, 3]), ws=rng.choice([0, 1, 2]), kt=rng.choice([None, ['k1', 'k 2']]),
+            notation=rng.choice(NOTATIONS), via=rng.choice(['xs', 'as_', 'ws', 'tr']),
+            validate=r >= 0.15, serve='match' if r >= 0.3 or r < 0.08 else rng.choice(['mismatch', 'garbage', 'invalid-info']),
+            ops=ops)
+    return sc
+
+
+def _obs_torrent(t):
+    """everything the property says about the torrent a magnet converts to (reads only)"""
+    o = {}
+    try:
+        o['info'] = _enc_info(t.metainfo['info'])
+    except BaseException as e:  # noqa
+        o['info'] = 'raised:' + type(e).__name__
+    for k, f in (('infohash', lambda: t.infohash), ('validate', lambda: t.validate() or 'ok'),
+                 ('trackers', lambda: [str(u) for u in t.trackers.flat]), ('webseeds', lambda: [str(u) for u in t.webseeds]),
+                 ('name', lambda: t.name), ('size', lambda: t.size)):
+        try:
+            o[k] = f()
+        except BaseException as e:  # noqa
+            o[k] = 'raised:' + mg.errkind(e)
+    return o
+
+
+def _ad_edit(t, kind):
+    """what a caller may do with the torrent it got from torrent()"""
+    info = t.metainfo['info']
+    if kind == 'top-name':
+        t.name = 'edited by the caller'
+    elif kind == 'top-add':
+        info['added by the caller'] = 1
+    elif kind == 'top-del':
+        info.pop('pieces', None)
+        info.pop('name', None)
+    elif kind == 'nested':
+        if info.get('files'):
+            info['files'][0]['length'] += 1
+            info['files'][-1]['path'].append('appended by the caller')
+        elif 'x-extra' in info:
+            info['x-extra']['k'].append('appended by the caller')
+        else:
+            info['length'] = info.get('length', 0) + 1
+    elif kind == 'trackers':
+        t.trackers.append('http://edited.example/announce')
+        t.webseeds.append('http://edited.example/seed')
+    elif kind == 'replace-info':
+        t.metainfo['info'] = {'name': 'replaced by the caller'}
+
+
+def _run_adopt_chunk(scs):
+    import io
+    import random
+    torf = common.import_torf()
+    srv = mg.TorrentServer()
+    out = []
+    try:
+        for s in scs:
+            rng = random.Random(s['seed'])
+            info, total = _ad_info(s['shape'], s['extras'], 'served')
+            other_info, _ = _ad_info('multi' if s['shape'].startswith('single') else 'single', [], 'foreign')
+            res = {'scenario': s}
+            try:
+                src = torf.Torrent()
+                src.metainfo['info'] = info
+                data, ih = src.dump(), src.infohash
+                oth = torf.Torrent()
+                oth.metainfo['info'] = other_info
+                odata, oih = oth.dump(), oth.infohash
+            except BaseException as e:  # noqa
+                out.append({'scenario': s, 'setup_exc': repr(e)})
+                continue
+            body = {'match': data, 'mismatch': odata, 'garbage': b'this is not bencoded',
+                    'invalid-info': b'd4:infod4:name1:xee'}[s['serve']]
+            # the info section get_info() should adopt: an independent read of the served bytes
+            try:
+                rd = torf.Torrent.read_stream(io.BytesIO(body), validate=s['validate'])
+                served = {'info': _enc_info(rd.metainfo['info']), 'pairs': [[mg.cps(str(k)), _enc(v)] for k, v in rd.metainfo['info'].items()],
+                          'nonempty': bool(rd.metainfo['info'])}
+                try:
+                    served['infohash'] = rd.infohash
+                    rd.validate()
+                    served['valid'] = True
+                except BaseException:  # noqa
+                    served['valid'] = False
+                    served.setdefault('infohash', None)
+                served['name'], served['size'] = rd.name, rd.size
+            except BaseException:  # noqa
+                served = None
+            nots = mg.notations(ih)
+            nots['hex-mixed'] = mg.randcase(rng, ih)
+            nots['b32-mixed'] = mg.randcase(rng, nots['b32-upper'])
+            own = nots[s['notation']]
+            base = f'http://127.0.0.1:{srv.port}'
+            srv.routes.clear()
+            kw = {'dn': {None: None, 'same': info['name'], 'other': 'the magnet\'s own name', 'empty': '', 'newline': 'two\nlines'}[s['dn']],
+                  'xl': {None: None, 'same': total, 'other': total + 7, 'one': 1, 'huge': 10 ** 30}[s['xl']],
+                  'tr': ['udp://tracker.example:%d/announce' % (6969 + i) for i in range(s['tr'])],
+                  'ws': [f'{base}/nothing-here/{i}' for i in range(s['ws'])], 'kt': s['kt']}
+            if s['via'] == 'tr':
+                kw['tr'].append(f'{base}/announce')
+                srv.routes['/file?info_hash='] = (200, body)
+            elif s['via'] == 'ws':
+                kw['ws'].append(f'{base}/seed/t')
+                srv.routes['/seed/t'] = (200, body)
+            else:
+                kw[s['via']] = f'{base}/src/t.torrent'
+                srv.routes['/src/t'] = (200, body)
+            res.update(own=own, ih=ih, other_ih=oih, served=served, kw=kw)
+            try:
+                m = torf.Magnet(own, **kw)
+            except BaseException as e:  # noqa
+                res['setup_exc'] = repr(e)
+                out.append(res)
+                continue
+            obs, last = [], None
+            for op in s['ops']:
+                o = {}
+                try:
+                    if op[0] == 'torrent':
+                        last = m.torrent()
+                        o = _obs_torrent(last)
+                        # the hash the result falls back to once its info section is gone (Torrent.infohash documents the
+                        # fallback for torrents made from magnets): on a second result, by assignment, nothing is mutated
+                        t2 = m.torrent()
+                        t2.metainfo['info'] = {}
+                        try:
+                            o['infohash_without_info'] = t2.infohash
+                        except BaseException as e:  # noqa
+                            o['infohash_without_info'] = 'raised:' + mg.errkind(e)
+                        o['fields'] = {'dn': m.dn, 'xl': m.xl, 'tr': [str(u) for u in m.tr], 'ws': [str(u) for u in m.ws],
+                                       'infohash': m.infohash}
+                    elif op[0] == 'get_info':
+                        cb = []
+                        try:
+                            o['result'] = bool(m.get_info(validate=s['validate'], timeout=10, callback=lambda e: cb.append(type(e).__name__)))
+                        except BaseException as e:  # noqa
+                            o['result'] = 'raised:' + mg.errkind(e)
+                    elif op[0] == 'set':
+                        setattr(m, op[1], op[2])
+                        o['err'] = None
+                    elif op[0] == 'assign':
+                        v = 'ab' * 20 + 'z' if op[2] == 'invalid' else mg.notations(oih)[rng.choice(['hex-upper', 'b32-lower', 'hex-lower'])]
+                        o['v'] = v
+                        try:
+                            setattr(m, op[1], v)
+                            o['err'] = None
+                        except BaseException as e:  # noqa
+                            o['err'] = mg.errkind(e)
+                    elif op[0] == 'edit':
+                        if last is not None:
+                            _ad_edit(last, op[1])
+                            o['edited'] = _obs_torrent(last)
+                except BaseException as e:  # noqa
+                    o['exc'] = type(e).__name__ + ': ' + str(e)[:100]
+                obs.append(o)
+            res['obs'] = obs
+            out.append(res)
+    finally:
+        srv.close()
+    return out
+
+
+def eval_adopt(ctx, drv, scs):
+    for i, s in enumerate(scs):
+        s.setdefault('seed', ctx.seed * 100019 + i)
+    results = [o for ch in common.pmap(_run_adopt_chunk, common.split(scs, min(common.NPROC, 8))) for o in ch]
+    plans, treq = [], []
+    for res in results:
+        s = res['scenario']
+        if 'setup_exc' in res:
+            plans.append(None)
+            continue
+        served = res['served']
+        st = {'hex': res['ih'], 'adopted': None, 'dn': None if res['kw']['dn'] is None else res['kw']['dn'].replace('\n', ' '),
+              'xl': res['kw']['xl'], 'tr': list(res['kw']['tr']), 'ws': list(res['kw']['ws'])}
+        plan, edited, since_edit = [], None, False
+        for op, o in zip(s['ops'], res['obs']):
+            if op[0] == 'get_info':
+                if st['adopted'] is not None:
+                    exp = {'result': True}          # not generated; kept for replayed cases
+                elif served is None or not served['nonempty']:
+                    exp = {'result': False}
+                elif s['validate'] and served['infohash'] != st['hex']:
+                    exp = {'result': 'raised:metainfo'}
+                else:
+                    exp = {'result': True}
+                    st['adopted'] = served
+                plan.append(('get_info()', exp, None))
+            elif op[0] == 'set':
+                v = op[2]
+                st[op[1]] = (None if v is None else v.replace('\n', ' ')) if op[1] == 'dn' else ([] if v is None else list(v)) if op[1] in ('tr', 'ws') else v
+                plan.append(('set ' + op[1], {'err': None}, None))
+            elif op[0] == 'assign':
+                if op[2] == 'invalid':
+                    plan.append(('rejected assignment', {'err': 'magnet'}, None))
+                else:
+                    st['hex'], st['adopted'] = res['other_ih'], None
+                    plan.append(('assignment of another hash', {'err': None}, None))
+            elif op[0] == 'edit':
+                edited = (op[1], o.get('edited'))
+                since_edit = True
+                plan.append(('edit', {}, None))
+            else:
+                ad = st['adopted']
+                if ad is not None:
+                    exp = {'info': ad['info'], 'trackers': st['tr'], 'webseeds': st['ws'], 'name': ad['name'], 'size': ad['size'],
+                           'infohash_without_info': 'raised:metainfo'}
+                    if ad['valid']:
+                        exp.update(infohash=ad['infohash'], validate='ok')
+                    else:
+                        exp.update(infohash='raised:metainfo')
+                    if s['validate']:
+                        exp['infohash'] = st['hex']       # adopted by a validating get_info(): the magnet's own hash
+                else:
+                    own = {}
+                    if st['dn'] is not None:
+                        own['name'] = st['dn']
+                    if st['xl'] is not None:
+                        own['length'] = st['xl']
+                    exp = {'info': _enc_info(own), 'trackers': st['tr'], 'webseeds': st['ws'], 'name': st['dn'],
+                           'size': st['xl'] or 0, 'infohash': st['hex'], 'infohash_without_info': st['hex']}
+                name = ('torrent() after an earlier result was edited by the caller' if since_edit else
+                        'torrent() with adopted metadata' if ad is not None else 'torrent() without metadata')
+                extra = {'adopted': ad is not None, 'edit': edited[0] if since_edit and edited else None,
+                         'info_of_the_edited_result': (edited[1] or {}).get('info') if since_edit and edited else None}
+                since_edit = False
+                plan.append((name, exp, extra))
+                pairs = None if ad is None else ad['pairs']
+                treq.append({'op': 'c14.torrent', 'ih': mg.cps(o.get('fields', {}).get('infohash', res['own'])),
+                             'dn': mg.ocps(st['dn']), 'xl': st['xl'], 'tr': [mg.cps(u) for u in st['tr']],
+                             'ws': [mg.cps(u) for u in st['ws']], 'adopted': pairs,
+                             'adoptedHash': mg.ocps(ad['infohash'] if ad is not None and ad['valid'] else None)})
+        plans.append(plan)
+    trep = iter(drv.run(treq))
+    for res, plan in zip(results, plans):
+        s = res['scenario']
+        case = dict(s, kind='adopt')
+        nt = sum(1 for op in s['ops'] if op[0] == 'torrent')
+        ctx.case(key=('adopt', s['shape'], tuple(s['extras']), s['dn'], s['xl'], s['tr'], s['ws'], s['notation'], s['via'],
+                      s['validate'], s['serve'], json.dumps(s['ops'])), nontrivial=True,
+                 kind='adopt/%s/%s' % (s['shape'], 'dn+xl' if s['dn'] and s['xl'] else 'dn' if s['dn'] else 'xl' if s['xl'] else 'bare'))
+        if plan is None:
+            ctx.machinery_error('adopt scenario could not be set up: ' + res['setup_exc'], case)
+            continue
+        case.update(own=res['own'], magnet=dict(res['kw'], xl=res['kw']['xl']))
+        if ctx.dist['sampled-adopt'] < 2 and s['shape'] != 'single' and s['xl']:
+            ctx.dist['sampled-adopt'] += 1
+            ctx.sample({'case': case, 'stages': [[n, {k: v for k, v in e.items() if k != 'info'}] for n, e, _ in plan]}, limit=10)
+        for k, ((name, exp, extra), o) in enumerate(zip(plan, res['obs'])):
+            r = next(trep) if extra is not None else None
+            if 'exc' in o:
+                ctx.violation('an operation of the history raised', case, {'stage': name, 'step': k}, dict(o, stage=name, step=k),
+                              finding_matchers=MATCHERS)
+                break
+            if any(o.get(f) != v for f, v in exp.items()):
+                got = {f: o.get(f) for f in exp}
+                got.update(stage=name, step=k, **(extra or {}))
+                ctx.violation(
+                    'one magnet, step %d of its history, "%s": the torrent it converts to is not the specified one (with adopted '
+                    'metadata: info section exactly the adopted one, infohash = 40-digit form of the magnet\'s hash, validates, '
+                    'no fallback hash; without: name/size from dn/xl, infohash given explicitly; trackers/webseeds the magnet\'s)'
+                    % (k, name), case, dict(exp, stage=name, step=k), got, finding_matchers=MATCHERS)
+                break
+            if r is None or not r['hyp']:
+                continue
+            # --- model (torrentOf) against the Lean specification (specTorrent: C14_torrent_after_adoption /
+            #     C14_torrent_before_adoption) and against the implementation
+            mo = r['model'].get('ok')
+            sp = r['spec']
+            if mo is None or mo != sp:
+                ctx.machinery_error('torrent() model outside spec although C14_torrent_after_adoption / _before_adoption are proved',
+                                    {'case': case, 'step': k, 'model': r['model'], 'spec': sp})
+                break
+            m_obs = {'info': sorted([[p[0], p[1]] for p in mo['info']]), 'trackers': [mg.uncps(u) for u in mo['trackers']],
+                     'webseeds': [mg.uncps(u) for u in mo['webseeds']],
+                     'infohash': mg.uncps(mo['infohash']['ok']) if 'ok' in mo['infohash'] else 'raised:' + str(mo['infohash'].get('err')),
+                     'infohash_without_info': mg.uncps(mo['ownHash']) if mo['ownHash'] is not None else 'raised:metainfo'}
+            i_obs = {f: o.get(f) for f in m_obs}
+            if m_obs != i_obs:
+                ctx.corr_break('c14.torrent', dict(case, step=k), m_obs, i_obs)
+                break
+        else:
+            continue
+        # drain the replies of the steps that were not looked at
+        for (name, exp, extra) in plan[k + 1:]:
+            if extra is not None:
+                next(trep)
+
+
 # ------------------------------------------------------------------ entry points
 def run(ctx, drv):
     ctx.notes['rule'] = RULE
@@ -1085,6 +1509,9 @@ def run(ctx, drv):
         'between "the denoted hash changes" and "every accepted assignment"; get_info() on a magnet that still holds metadata is '
         'fixed by the model only (judged weakly against the property)',
         'values are str (non-str values go through str(value) first, as in the setters)',
+        'torrent() in full: "validate() + SHA-1 of the bencoded info section" (Torrent.infohash) is an oracle of the model: the '
+        'adopted info section hashes to the infohash of an independent read of the served bytes, an info section made of dn/xl '
+        'alone does not validate; values inside the info section are opaque to the model',
     ]
     for c in mg.corpus_cases('C14'):          # past failures first
         ctx.dist['corpus'] += 1
@@ -1096,6 +1523,7 @@ def run(ctx, drv):
     eval_urls(ctx, drv, url_cases(ctx))
     eval_getinfo(ctx, drv, getinfo_scenarios(ctx))
     eval_gih(ctx, drv, gih_scenarios(ctx))
+    eval_adopt(ctx, drv, adopt_scenarios(ctx))
     ctx.exhaustive = False
     for f in ctx.open_findings():
         if f['id'] not in ctx.known:
@@ -1109,6 +1537,7 @@ def search(ctx, drv):
     eval_urls(ctx, drv, url_cases(ctx, scale=3.0))
     eval_getinfo(ctx, drv, getinfo_scenarios(ctx, scale=3.0))
     eval_gih(ctx, drv, gih_scenarios(ctx, scale=3.0))
+    eval_adopt(ctx, drv, adopt_scenarios(ctx, scale=3.0))
 
 
 def _eval_case(ctx, drv, c):
@@ -1132,6 +1561,9 @@ def _eval_case(ctx, drv, c):
                                  'validate': c['validate'], 'udp_tracker': c.get('udp_tracker', False),
                                  'ws_slash': c.get('ws_slash', False),
                                  **({'hash_hex': c['hash_hex']} if 'hash_hex' in c else {})}])
+    elif k == 'adopt':
+        eval_adopt(ctx, drv, [{key: c[key] for key in ('shape', 'extras', 'dn', 'xl', 'tr', 'ws', 'kt', 'notation', 'via', 'validate',
+                                                       'serve', 'ops', 'seed') if key in c}])
     elif k == 'urls':
         eval_urls(ctx, drv, [(c['field'], c['prior'], list(c['vs']))])
     else:
